@@ -1342,12 +1342,18 @@ class InstanceObj(SymObj):
     """the instance a method is looked up on: nothing about it may be consulted (truthiness, length, attributes)"""
 
     concrete_identity = True
+    interp = None
 
     def py_truth(self, I):
-        raise OutOfSubset("the truth value of the instance is consulted")
+        I.require(False, "nothing_about_the_instance_is_consulted[truth_value]")
+        return I.fresh("instance_truth", z3.BoolSort())
 
     def py_len(self, I):
-        raise OutOfSubset("the length of the instance is consulted")
+        I.require(False, "nothing_about_the_instance_is_consulted[length]")
+        return ZV(I.fresh("instance_len", z3.IntSort()), "int")
+
+    def py_is_none(self, I):
+        return False  # `obj is None` distinguishes class access from instance access: allowed
 
     def py_getattr(self, I, name):
         raise OutOfSubset(f"attribute {name} of the instance is consulted")
